@@ -10,6 +10,7 @@ import (
 	"github.com/dgraph-io/badger/v4/pb"
 
 	"verif/h/core"
+	"verif/h/gen"
 )
 
 func mapsEqual(a, b map[uint64]badger.TableManifest) bool {
@@ -69,7 +70,7 @@ type boundary struct {
 // C17 monitors MANIFEST append / rewrite / replay.
 func C17(c *core.Ctx) {
 	c.Rule("random sequences of change sets (creates at levels 0-6 with key ids and compression, deletes of live and of unknown ids, mixed sets) " +
-		"on a real manifest file with rewrite threshold 5-50; after every addChanges the in-memory map, a reference map and ReplayManifestFile must agree; " +
+		"on a real manifest file with rewrite threshold 5-50 (every third run starts with a stale MANIFEST-REWRITE file left by a crashed rewrite); after every addChanges the in-memory map, a reference map and ReplayManifestFile must agree; " +
 		"then every truncation offset since the last rewrite must replay to the map after the last complete set and return that set's end offset; " +
 		"a flipped byte inside a complete set's payload or crc must produce an error; distinct = (threshold, rewrites seen, unknown-delete used) classes")
 	r := c.Rand("c17")
@@ -82,6 +83,13 @@ func C17(c *core.Ctx) {
 		_ = os.MkdirAll(sub, 0o755)
 		opt := badger.DefaultOptions(sub).WithLogger(nil)
 		thr := 5 + r.Intn(46)
+		stale := run%3 == 1
+		if stale {
+			// a rewrite that died between writing its temporary file and the rename leaves the
+			// temporary file behind; later rewrites must not be affected by its contents
+			_ = os.WriteFile(filepath.Join(sub, "MANIFEST-REWRITE"), gen.Bytes(r, 300+r.Intn(6000)), 0o644)
+			c.Count("stale_rewrite_files_planted", 1)
+		}
 		mf, _, err := badger.VerifOpenManifest(sub, thr, opt)
 		if err != nil {
 			c.Inconclusive("open manifest: " + err.Error())
@@ -195,7 +203,7 @@ func C17(c *core.Ctx) {
 		}
 		_ = mf.Close()
 		_ = os.RemoveAll(sub)
-		c.Distinct(fmt.Sprintf("thr%d|rw%d|unk%v", thr/10, min(rewrites, 3), unknownDel))
+		c.Distinct(fmt.Sprintf("thr%d|rw%d|unk%v|stale-rewrite-file=%v", thr/10, min(rewrites, 3), unknownDel, stale))
 		if run < 2 {
 			info["rewrites"] = rewrites
 			c.Sample(info)
